@@ -216,10 +216,8 @@ def rescore(case, circ):
         scores.append(float(sc))
         return list(script.used)
 
-    if case["det"] != 2:
-        once([], 0)
-    else:
-        sweep(once, max_leaves=32, extra_samples=0)
+    # also under forced settings the trace-out of an emitter that is still entangled draws an outcome: enumerate
+    sweep(once, max_leaves=32 if case["det"] == 2 else 8, extra_samples=0)
     return scores
 
 
